@@ -321,6 +321,24 @@ func TestVerifC13Node(t *testing.T) {
 						map[string]any{"scenario": sc, "packet": p.String()})
 				}
 				mm[p.H.MessageCounter] = true
+				if k.relay && len(p.Data) >= 2*header.Len+16 {
+					// the end-to-end packet riding inside a relay wrapper has its own tunnel key and counter
+					var ih header.H
+					if err := ih.Parse(p.Data[header.Len:]); err == nil && ih.Type != header.Handshake && p.To == rl.Addr {
+						ik := key{p.Sender.Name + "(inner)", p.To, ih.RemoteIndex, false}
+						im := seen[ik]
+						if im == nil {
+							im = map[uint64]bool{}
+							seen[ik] = im
+						}
+						if im[ih.MessageCounter] {
+							r.Violation("C13/wire-counter-reused", fmt.Sprintf("scenario %d: %s sent two relayed inner packets with counter %d on end-to-end tunnel index %d", sc, p.Sender.Name, ih.MessageCounter, ih.RemoteIndex),
+								map[string]any{"scenario": sc, "packet": p.String()})
+						}
+						im[ih.MessageCounter] = true
+						r.Count("relayed_inner_counters_checked", 1)
+					}
+				}
 				if p.H.MessageCounter <= 2 {
 					r.Violation("C13/wire-counter-not-above-handshake", fmt.Sprintf("scenario %d: %s", sc, p.String()), map[string]any{"scenario": sc, "packet": p.String()})
 				}
@@ -330,8 +348,16 @@ func TestVerifC13Node(t *testing.T) {
 			for i := 0; i < n; i++ {
 				pairs := [][2]*vnNode{{a, b}, {b, a}, {a, rl}, {rl, a}, {b, rl}}
 				pr := pairs[rng.IntN(len(pairs))]
-				pkt, _ := vnUDP4(pr[0].Ident.Addr(), pr[1].Ident.Addr(), uint16(100+i), 9, rng.IntN(200))
-				nw.TunSend(pr[0], pkt)
+				if i > n/4 && rng.IntN(4) == 0 {
+					// a USO superpacket: one counter per segment, on the direct and on the relayed send path
+					k, chunk := 2+rng.IntN(4), 40+rng.IntN(200)
+					sp, segs, _ := vnUSO(pr[0].Ident.Addr(), pr[1].Ident.Addr(), uint16(100+i), 9, k, chunk, 16+rng.IntN(chunk-15))
+					nw.TunSendSuper(pr[0], sp)
+					r.Count("superpacket_segments_sent", len(segs))
+				} else {
+					pkt, _ := vnUDP4(pr[0].Ident.Addr(), pr[1].Ident.Addr(), uint16(100+i), 9, rng.IntN(200))
+					nw.TunSend(pr[0], pkt)
+				}
 				if rng.IntN(3) == 0 {
 					nw.Flush()
 				}
